@@ -227,4 +227,13 @@ func runC19(c *Ctx) {
 	}
 	_ = tls.Config{}
 	c19Semantics(c)
+	// an accepted READQ-LEN stays in force through everything that re-creates a queue (SUB replaces its queue on every
+	// Unsubscribe and resize; contexts inherit the socket's length): the SUB machine of C06 with its small queue lengths
+	n := 15
+	if c.Thorough() {
+		n = 300
+	}
+	for i := 0; i < n; i++ {
+		runSubScenario(c, 40)
+	}
 }
